@@ -12,6 +12,22 @@ exactly the class predicates of the known findings plus well-formedness of a sin
   * `noOpaque`        — finding 12 (opaque whiteouts hide nothing)
   * `noRecreateAt`    — finding 10 (deleted, re-created later, lower children reappear)
   * `noImplicitOverExplicitAt` — new: a directory a layer only implies loses the metadata of the lower layer's entry
+
+Audit-1 notes.
+* `C04_squash` ("the squashed on-disk unpacking holds the regular files of the final view") has NO theorem: the unpack
+  model (`Model/Unpack.lean`) and this model share no lemma.  It is a run-time comparison in the C04 stream (field
+  `squash=` of c04gen: `unpack.UnpackSquashed` of the same image vs the final view, judged where `H` holds and the image
+  has no links/fifos); two classes where it fails are recorded findings (C04/squash-*).
+* `H` is sufficient, not necessary: `noRecreateAt` and `noImplicitOverExplicitAt` are syntactic over-approximations of
+  their defect classes (they ignore an intervening deletion); for the opaque marker there is only the negative theorem
+  `C04_view_fails_opaque` — the code has no opaque handling to prove anything positive about.  The evidence reports how
+  many generated images satisfy `H`; a quarter of the stream is built to satisfy it.
+* `C04_readdir_partial` / `C04_walk_partial` are congruence corollaries by design: `FS.ReadDir` and `fs.WalkDir` read the
+  tree only through `Get`/`GetChildren`, which the model renders as `t.get` over the candidate paths `U`; that rendering
+  (and `walk`'s fuel: the depth of `U` plus 2) is validated by the correspondence stream, not proved.
+* Content: `Obs.file` carries the content id of the tar entry; that the bytes behind a node are the entry's bytes is
+  checked through the modelled extraction directory by the stream only (driver flag `bigDup` marks the one way it fails:
+  a size-rejected entry followed by an accepted entry of the same name in one tar — ill-formed, no theorem).
 -/
 import Scalibr.Proofs.OverlayView
 import Scalibr.Proofs.OverlayLoad
